@@ -61,6 +61,8 @@ class Gen:
             return []                                  # the empty option set
         keys = [k for k in OPT_KEYS if self.r.random() < 0.85]
         self.r.shuffle(keys)
+        if self.r.random() < 0.15:
+            keys = keys[:self.r.randint(1, 2)]         # a small option set (fewer options than a condition list has pairs)
         opts = [(k, self.pick(OPT_VALS + (["opt=0", "a=b=c"] if self.chance("eq_vals") else []))) for k in keys]
         if opts and self.chance("dup_opts"):
             k = self.pick(keys)
@@ -69,6 +71,12 @@ class Gen:
 
     def cond_pairs(self):
         l = [[self.pick(OPT_KEYS), self.pick(OPT_VALS[:5])] for _ in range(self.r.randint(1, 3))]
+        cur = getattr(self, "cur_opts", None)
+        if cur and self.r.random() < 0.35:
+            # pairs that hold under the option set this case will run with (so that *_if_all lists do match)
+            l = [list(self.pick(cur)) for _ in range(self.r.randint(1, 3))]
+            if self.r.random() < 0.3:
+                l.insert(self.r.randrange(len(l) + 1), [self.pick(OPT_KEYS), self.pick(OPT_VALS[:5])])
         if self.r.random() < 0.15:
             l.insert(self.r.randrange(len(l) + 1), list(self.pick(l)))      # the same pair twice
         return l
@@ -353,8 +361,9 @@ class Gen:
         return doc
 
     def case_parts(self):
+        self.cur_opts = self.options()
         doc = self.document()
-        opts = self.options()
+        opts = self.cur_opts
         st = doc.get("settings") or {}
         partial = (not st.get("single_segment_mode")) and \
             ("partial_build_segments_folder" in st and self.r.random() < 0.6 or self.r.random() < 0.03)
